@@ -368,7 +368,7 @@ fn cross_decode(ctx: &mut Ctx, rng: &mut Rng, handle: &DynamicColumnHandle, exp_
         if dl + 4 > col.len() { return; }
         col = &col[dl..col.len() - 4];
     }
-    if matches!(handle.column_type(), ColumnType::Bytes | ColumnType::Str) && raw.len() <= 40_000 && !exp_u64.is_empty() {
+    if matches!(handle.column_type(), ColumnType::Bytes | ColumnType::Str) && raw.len() <= 8_000 && !exp_u64.is_empty() {
         // the model splits the Str / Bytes column file itself (open_column_bytes) and reads the ordinals
         let n = exp_u64.len();
         let mut r2 = Rng(crate::report::fnv(&raw) ^ 0xC01F_11E7);
@@ -393,7 +393,7 @@ fn cross_decode(ctx: &mut Ctx, rng: &mut Rng, handle: &DynamicColumnHandle, exp_
     let n = exp_u64.len();
     // the model opens the whole column file (index length, cardinality code, optional index, start
     // offsets column, values column) and reads documents through its readers
-    if let (Some(ips), true) = (ip_flat.as_ref(), handle.column_type() == ColumnType::IpAddr && col.len() <= 40_000 && n > 0) {
+    if let (Some(ips), true) = (ip_flat.as_ref(), handle.column_type() == ColumnType::IpAddr && col.len() <= 8_000 && n > 0) {
         let mut r2 = Rng(crate::report::fnv(col) ^ 0xC01F_11E6);
         let docs = probe_indices(&mut r2, n, 300, 40);
         let mut starts = Vec::with_capacity(n + 1);
@@ -408,7 +408,7 @@ fn cross_decode(ctx: &mut Ctx, rng: &mut Rng, handle: &DynamicColumnHandle, exp_
         }
         ctx.report.count("cross-decode:column-file-u128");
     }
-    if handle.column_type() != ColumnType::IpAddr && col.len() <= 40_000 && n > 0 {
+    if handle.column_type() != ColumnType::IpAddr && col.len() <= 8_000 && n > 0 {
         let mut r2 = Rng(crate::report::fnv(col) ^ 0xC01F_11E5);
         let docs = probe_indices(&mut r2, n, 300, 40);
         let resp = ctx.model.ask(&format!("C08 colfile {} {}", hex(col), nat_list(&docs.iter().map(|&d| d as u64).collect::<Vec<_>>())));
@@ -811,7 +811,7 @@ fn dict_merge_model(ctx: &mut Ctx, readers: &[ColumnarReader], name: &str, cat: 
         }
     }
     // the whole merged column as the model builds it (dictionary, index, remapped ordinals)
-    if order.len() <= 700 && readers.iter().map(|r| r.num_docs() as usize).sum::<usize>() <= 1500 {
+    if order.len() <= 400 && readers.iter().map(|r| r.num_docs() as usize).sum::<usize>() <= 800 {
         let ins_txt: Vec<String> = cols.iter().zip(readers).map(|(c, r)| match c {
             Some(bc) => rows_text(&(0..r.num_docs()).map(|d| bc.term_ords(d).collect::<Vec<u64>>()).collect::<Vec<_>>()),
             None => format!("~{}", r.num_docs()),
